@@ -245,7 +245,7 @@ func ctorCalls(v ssa.Value, dv *dev, seen map[ssa.Value]bool) ([]*ssa.Call, bool
 	return nil, false
 }
 
-func fromReceive(v ssa.Value, seen map[ssa.Value]bool) bool {
+func fromReceive(p *Program, v ssa.Value, seen map[ssa.Value]bool) bool {
 	if seen[v] {
 		return true
 	}
@@ -267,17 +267,58 @@ func fromReceive(v ssa.Value, seen map[ssa.Value]bool) bool {
 			if c, ok := e.(*ssa.Const); ok && c.Value == nil {
 				continue // zero value before the first receive
 			}
-			if !fromReceive(e, seen) {
+			if !fromReceive(p, e, seen) {
 				return false
 			}
 		}
 		return true
 	case *ssa.ChangeType:
-		return fromReceive(x.X, seen)
+		return fromReceive(p, x.X, seen)
 	case *ssa.Convert:
-		return fromReceive(x.X, seen)
+		return fromReceive(p, x.X, seen)
+	case *ssa.Parameter:
+		// a helper that forwards its argument: every static call site must pass a received value
+		sites, ok := staticCallSites(p, x.Parent())
+		idx := paramIndex(x)
+		if !ok || idx < 0 {
+			return false
+		}
+		for _, ci := range sites {
+			if idx >= len(ci.Common().Args) || !fromReceive(p, ci.Common().Args[idx], seen) {
+				return false
+			}
+		}
+		return true
 	}
 	return false
+}
+
+func paramIndex(x *ssa.Parameter) int {
+	for i, q := range x.Parent().Params {
+		if q == x {
+			return i
+		}
+	}
+	return -1
+}
+
+// staticCallSites: every call/go/defer site in the repository's functions whose static callee is fn (or the
+// generic origin's instantiation fn); ok=false when fn is also used as a value (callers unknown) or never called.
+func staticCallSites(p *Program, fn *ssa.Function) ([]ssa.CallInstruction, bool) {
+	var out []ssa.CallInstruction
+	for _, caller := range p.Funcs {
+		for _, b := range caller.Blocks {
+			for _, in := range b.Instrs {
+				if ci, ok := in.(ssa.CallInstruction); ok && ci.Common().StaticCallee() == fn {
+					out = append(out, ci)
+				}
+			}
+		}
+	}
+	if len(out) == 0 || fn.Referrers() != nil && len(*fn.Referrers()) > len(out) {
+		return nil, false
+	}
+	return out, true
 }
 
 // ruleSendSites: R5.2 (only constructor results are sent) and R5.3/R5.4 (operands in range).
@@ -295,7 +336,7 @@ func ruleSendSites(c *Ctx, dv *dev, pf *parserFacts, shapes map[*ssa.Function]*c
 		c.Fn(fname)
 		if !inDevice {
 			// relay side: forwards what it received
-			if fromReceive(s.val, map[ssa.Value]bool{}) {
+			if fromReceive(c.P, s.val, map[ssa.Value]bool{}) {
 				c.OK("R5.2", key, pos, "relay forwards a received value")
 			} else {
 				c.Bad("R5.2", key, pos, "a value that was not received from a channel is sent on a MIDI event channel outside package device")
@@ -424,6 +465,22 @@ func isFloatDerived(v ssa.Value) bool {
 					return true
 				}
 			}
+		case *ssa.Call:
+			// a value-only helper (e.g. an extracted scaling function): float-derived if every result is
+			callee := x.Call.StaticCallee()
+			if callee == nil || len(callee.Blocks) == 0 || callee.Signature.Results().Len() != 1 {
+				return false
+			}
+			n := 0
+			for _, b := range callee.Blocks {
+				if r, ok := b.Instrs[len(b.Instrs)-1].(*ssa.Return); ok && b != callee.Recover {
+					n++
+					if !rec(r.Results[0]) {
+						return false
+					}
+				}
+			}
+			return n > 0
 		}
 		return false
 	}
